@@ -274,6 +274,62 @@ theorem slowPath_char (w : Word) (s : List Char) (loc : Nat)
       have hic : w.initSet.contains c = false := hi'
       simp only [hic, Bool.false_eq_true, if_false]
 
+/-! ### complete description of the character loop, including as_keyword -/
+
+theorem slowTail_full (w : Word) (s : List Char) (loc K : Nat) :
+    slowTail w s loc (loc + K) =
+      if K < w.minLen then none
+      else if w.maxSpecified && charIn w.bodySet s (loc + K) then none
+      else if w.asKeyword &&
+          ((decide (loc > 0) && charIn w.bodySet s (loc - 1)) || charIn w.bodySet s (loc + K)) then none
+      else some (loc + K) := by
+  unfold slowTail
+  have e2 : loc + K - loc = K := by omega
+  rw [e2]
+  have hb : (decide (loc + K < s.length) && charIn w.bodySet s (loc + K))
+      = charIn w.bodySet s (loc + K) := by
+    by_cases hc : charIn w.bodySet s (loc + K) = true
+    · have := charIn_lt hc
+      simp [hc, this]
+    · have : charIn w.bodySet s (loc + K) = false := by simpa using hc
+      simp [this]
+  simp only [Bool.and_assoc, hb]
+
+/-- `Word.parseImpl` for every flag combination: the spec, then the strict-max test, then the
+    as_keyword test against the *body characters* on both sides -/
+theorem slowPath_full (w : Word) (s : List Char) (loc : Nat)
+    (hmax : ∀ m, w.maxLen = some m → 0 < m) :
+    slowPath w s loc =
+      match wordSpec w.initSet.contains w.bodySet.contains w.minLen w.maxLen s loc with
+      | some e =>
+          if w.maxSpecified && charIn w.bodySet s e then none
+          else if w.asKeyword &&
+              ((decide (loc > 0) && charIn w.bodySet s (loc - 1)) || charIn w.bodySet s e) then none
+          else some e
+      | none => none := by
+  rw [slowPath_eq_tail]
+  unfold wordSpec
+  by_cases hi : charIn w.initSet s loc = true
+  · have hl := charIn_lt hi
+    rw [bodyLoop_run w s loc hl hmax, slowTail_full w s loc _]
+    have hs : s[loc]? = some s[loc] := by simp [hl]
+    have hic : w.initSet.contains s[loc] = true := by
+      have := hi; rw [charIn_eq, hs] at this; exact this
+    simp only [hi, hs, hic, Bool.not_true, Bool.false_eq_true, if_false, if_true]
+    obtain ⟨K, hK⟩ : ∃ K, K = capMin w.maxLen (1 + runAll w.bodySet.contains (s.drop (loc + 1))) :=
+      ⟨_, rfl⟩
+    rw [← hK]
+    by_cases hlt : K < w.minLen <;> simp [hlt]
+  · have hi' : charIn w.initSet s loc = false := by simpa using hi
+    simp only [hi', Bool.not_false, if_true]
+    rw [charIn_eq] at hi'
+    cases hs : s[loc]? with
+    | none => rfl
+    | some c =>
+      rw [hs] at hi'
+      have hic : w.initSet.contains c = false := hi'
+      simp only [hic, Bool.false_eq_true, if_false]
+
 /-! ### the regex path = spec -/
 
 theorem ends_chr (s : List Char) (c : Char) : ends false s (.chr c) = oneStep (fun d => [c].contains d) s := by
